@@ -784,9 +784,10 @@ func c15Run(t *testing.T, out *vfOut, srv *c15Server, h c15Hist, forced ...strin
 
 		var pan any
 		var netErr bool
+		var updNum int
 		func() {
 			defer func() { pan = recover() }()
-			_, netErr, _ = d.tryRefreshFilters(st.Block, st.Allow, st.Force)
+			updNum, netErr, _ = d.tryRefreshFilters(st.Block, st.Allow, st.Force)
 		}()
 		if pan != nil {
 			bad("C15/refresh-panic", fmt.Sprintf("refresh panicked: %v", pan))
@@ -927,6 +928,24 @@ func c15Run(t *testing.T, out *vfOut, srv *c15Server, h c15Hist, forced ...strin
 		if netErr && fmt.Sprint(expected(cur)) != fmt.Sprint(curV) {
 			classes["network-error-files-ahead-of-engine"] = true
 		}
+		replaced := 0
+		for _, l := range h.Lists {
+			if rewritten(prev[l.ID], cur[l.ID]) {
+				replaced++
+			}
+		}
+		if !netErr && updNum != replaced {
+			bad("C15/updated-count-wrong", fmt.Sprintf("the refresh reports %d updated lists, but %d files were replaced", updNum, replaced))
+		}
+		if !netErr && updNum == 0 {
+			classes["pass-without-update"] = true
+			if !inStepBefore {
+				classes["quiet-pass-engine-stays-behind"] = true
+			}
+		}
+		if !netErr && updNum > 0 && !inStepBefore {
+			classes["updating-pass-catches-up"] = true
+		}
 		if st.Force {
 			classes["forced"] = true
 		} else {
@@ -951,7 +970,7 @@ func c15Run(t *testing.T, out *vfOut, srv *c15Server, h c15Hist, forced ...strin
 			}
 		}
 		steps = append(steps, vfApp("RStep", vfBool(st.Block), vfBool(st.Allow), vfBool(st.Force),
-			vfList("N", dueS), vfList("N * outcome", ocs), vfList("lobs", obs), vfList("N", vs)))
+			vfList("N", dueS), vfList("N * outcome", ocs), vfN(uint64(updNum)), vfBool(netErr), vfList("lobs", obs), vfList("N", vs)))
 		prev, prevV = cur, curV
 	}
 
